@@ -323,6 +323,7 @@ impl Selector {
         let mut result: Specificity = Default::default();
 
         for component in &self.components {
+            verif_tick!(Step);
             match component {
                 SelectorComponent::Class(_) => {
                     result.class = result.class.saturating_add(1);
